@@ -233,6 +233,39 @@ func (c *Clock) Start(j int) *Running {
 	return r
 }
 
+// Run executes pending callback j to completion without parking it at its clock read (for
+// implementations that read the clock while holding the lock every other operation needs: there
+// the placement "between the clock read and the end of the callback" does not exist). It returns
+// nil if there is no such callback; Finished is false if it did not return within the watchdog.
+func (c *Clock) Run(j int) *Running {
+	c.mu.Lock()
+	if j < 0 || j >= len(c.pending) {
+		c.mu.Unlock()
+		return nil
+	}
+	p := c.pending[j]
+	c.pending = append(c.pending[:j:j], c.pending[j+1:]...)
+	r := &Running{P: p, release: make(chan struct{}), done: make(chan struct{}), reached: make(chan struct{})}
+	c.running = append(c.running, r)
+	c.mu.Unlock()
+	go func() {
+		p.T.f()
+		c.mu.Lock()
+		r.Finished = true
+		c.mu.Unlock()
+		close(r.done)
+	}()
+	c.Finish(r)
+	return r
+}
+
+// PendingList returns the fired, not yet started callbacks in firing order.
+func (c *Clock) PendingList() []Pending {
+	c.mu.Lock()
+	defer c.mu.Unlock()
+	return append([]Pending(nil), c.pending...)
+}
+
 // Finish releases a started callback (P2) and waits until it has returned. It returns
 // false if the callback did not return within the (generous, wall-clock) watchdog.
 func (c *Clock) Finish(r *Running) bool {
